@@ -54,6 +54,8 @@ ROOTATTRS = {"none": "", "xlink": ' xmlns:xlink="http://www.w3.org/1999/xlink"',
 
 def root_document(c):
     ns = ' xmlns="http://www.w3.org/2000/svg"' if c["ns"] else ""
+    if c.get("form") == "empty-tag":
+        return PROLOG[c["prolog"]] + f"<svg{ns}{ROOTATTRS[c.get('rootattrs', 'none')]}/>"
     return PROLOG[c["prolog"]] + f"<svg{ns}{ROOTATTRS[c.get('rootattrs', 'none')]}>" + "".join(KID[k] for k in c["kids"]) + "</svg>"
 
 
